@@ -44,6 +44,11 @@ where
     let mut header = [0u8; SNA_HEADER_SIZE];
     asset.read_exact(&mut header)?;
 
+    // Only interrupt modes 0, 1 and 2 do exist
+    if (header[25] & SNA_INTERRUPT_MODE_MASK) > 2 {
+        return Err(SnapshotLoadError::InvalidSNAFile.into());
+    }
+
     // Nothing of the previous execution state (halt, pending prefix, locked paging)
     // should survive snapshot loading
     emulator.cpu = Default::default();
